@@ -677,4 +677,9 @@ def run(facts, rep, tier, ctx):
             d = o["key"].split("|")[2]
             if d.startswith("remove_dir_all") or d.startswith("copy_file: destination created only after"):
                 rep.ob(("A/" if w7.asyncw else "") + "R09.7", o["fn"], d, o["ok"], o["detail"], o["loc"])
+    # R09.8 create_dir_all over a union: a file that only a lower layer holds is in the way like any other file — the composite
+    # asks create_dir for every prefix and tolerates exactly DirectoryExists (an exists() shortcut accepts the file)
+    for w7 in (ws, wa):
+        if w7.present():
+            PathRules(facts, w7).create_dir_all(rep if not w7.asyncw else c10._Prefixed(rep, "A"), "R09.8")
     rep.assume("layers behave as ordinary trees themselves (C01 applied to each layer)")
